@@ -129,8 +129,8 @@ CLAIMS['C13'] = dict(engine='rtc (E3)', category='exploration',
          'GF calculators and Taylor expansions round-trip through HDF5; crystals, group operations, pair states, cluster sites and all four kinds of clusters round-trip through YAML with equal hashes.',
     note='Catalogue crystals only; h5py and PyYAML trusted.')
 
-CLAIMS['C14'] = dict(engine='rtc (E3)', category='exploration',
-    technique='run-time history contracts on VacancyMediated.Lij: the result after any call/cache/regeneration history equals the result of a freshly built calculator; bounded stand-in',
+CLAIMS['C14'] = dict(engine='pyframe ownership typing (E2b) + rtc (E3)', category='exploration',
+    technique='ownership contracts of VacancyMediated.Lij checked statement by statement on the extracted AST (every returned array is fresh, memoised arrays are private or never handed out, no shared array is modified in place, the Green-function calculator only re-binds D and eta): for every call history; run-time history contracts (the result after any call/cache/regeneration history equals the result of a freshly built calculator) as bounded stand-in',
     text='Bounded: Lij is a function of its arguments alone over seeded histories (repeated calls, interleaved data sets, cache hits, regeneration to another range, saved-and-reloaded calculators), '
          'and inputs and cached arrays are not modified.',
     note='Catalogue crystals, seeded histories of bounded length.')
